@@ -90,6 +90,7 @@ theorem pairStep_other {sqrt : K → K} {C : Mat K n} {Crs : Vec K n} {st st' : 
     {i j : Fin n} (hst : pairStep sqrt C Crs st i j = .ok st') (a b : Fin n)
     (h1 : ¬ (a = i ∧ b = j)) (h2 : ¬ (a = j ∧ b = i)) : mget st'.X a b = mget st.X a b := by
   unfold pairStep at hst
+  dsimp only at hst
   split at hst
   · injection hst with hst
     subst hst
